@@ -1,6 +1,6 @@
 #![no_main]
 // Structure-aware target: the input is a choice tape decoded into a document sequence; oracles of
-// C01 (validity), C03 (reference inference), C09 (orders) and C11 (two surfaces) run inside.
+// C03 (reference inference), C01 (validity), C09 (orders) and C11 (two surfaces) run inside.
 use libfuzzer_sys::fuzz_target;
 
 fuzz_target!(|data: &[u8]| {
